@@ -25,6 +25,10 @@ type Seen struct {
 	Req    proto.Message
 	Seq    uint64
 	ConnID int
+	// TS server: the object the TS route passed to the handler, verbatim
+	JSON    []byte
+	JSONErr string
+	Headers map[string]string
 }
 
 // WireReq is a request head as it appeared on the simulated wire.
@@ -66,6 +70,11 @@ type CallState struct {
 	HandlerResp proto.Message
 	HandlerErr  error
 
+	// TS client results
+	TSValue     []byte
+	TSDecodeErr error
+	TSError     map[string]any
+
 	ctx         context.Context
 	cancel      context.CancelFunc
 	cancelFired bool
@@ -86,6 +95,7 @@ type kmsg struct {
 	conn *Conn
 	w    *waiter
 	call *CallState
+	ts   *tsPending
 	ord  int
 }
 
@@ -134,6 +144,7 @@ type Kernel struct {
 	App     *App
 	Stats   Stats
 	Steps   int
+	Yielded int
 	EndAt   time.Duration
 	StepCap bool
 	Panics  []string
@@ -148,6 +159,7 @@ type Kernel struct {
 	ServerPanics int
 	Orphans      []Seen // handler invocations with no call id
 	TS           *TSBridge
+	tsQueue      []*tsPending
 }
 
 const maxSteps = 20000
@@ -197,6 +209,7 @@ type event struct {
 	conn *Conn
 	link *link
 	w    *waiter
+	ts   *tsPending
 }
 
 func (e event) String() string {
@@ -274,6 +287,9 @@ func (k *Kernel) enabled(now time.Duration) (en []event, next time.Duration) {
 	for _, w := range k.parked {
 		en = append(en, event{kind: "resume", w: w})
 	}
+	for _, p := range k.tsQueue {
+		en = append(en, event{kind: "ts", ts: p})
+	}
 	return en, next
 }
 
@@ -317,6 +333,8 @@ func (k *Kernel) handle(m kmsg) {
 		c.RetSeq = k.seq + 1
 		c.RetAt = k.Now()
 		k.Event("client-return", "op=%d %s", c.Op.ID, outcomeClass(c))
+	case "ts":
+		k.tsQueue = append(k.tsQueue, m.ts)
 	case "srvdone":
 		if k.Race != nil {
 			m.conn.respClock = k.Race.snapshot(1000 + m.conn.id)
@@ -428,7 +446,7 @@ func (k *Kernel) allDone() bool {
 			return false
 		}
 	}
-	return len(k.parked) == 0
+	return len(k.parked) == 0 && len(k.tsQueue) == 0
 }
 
 func (k *Kernel) exec(ev event) {
@@ -444,6 +462,29 @@ func (k *Kernel) exec(ev event) {
 		k.Stats.fault("cancel")
 		k.Event("fault", "cancel op=%d", ev.call.Op.ID)
 		ev.call.cancel()
+		if ev.call.Op.Client == "ts" && k.TS != nil {
+			evs, err := k.TS.Send(map[string]any{"t": "abort", "id": ev.call.Idx})
+			if err != nil {
+				panic("sim: bridge: " + err.Error())
+			}
+			k.Stats.Probe("abort_fired")
+			k.tsEvents(evs)
+		}
+	case "ts":
+		for i, p := range k.tsQueue {
+			if p == ev.ts {
+				k.tsQueue = append(k.tsQueue[:i], k.tsQueue[i+1:]...)
+				break
+			}
+		}
+		fmt.Fprintf(k.ilHash, "%s%d|", ev.ts.kind, ev.ts.call.Idx)
+		k.Event("ts", "%s op=%d", ev.ts.kind, ev.ts.call.Op.ID)
+		if ev.ts.kind == "handle-result" {
+			k.Yielded++
+			k.tsDeliverHandleResult(ev.ts)
+		} else {
+			k.tsHandlePending(ev.ts)
+		}
 	case "accept":
 		ev.conn.accepted = true
 		k.Event("accept", "conn=%d", ev.conn.id)
